@@ -58,6 +58,9 @@ ASSUMPTIONS = [
     "PixelatedDetector(max_angle='cutoff') returns a smaller angular range for a down-sampled S-matrix "
     "(adjusted_antialias_cutoff_gpts) — the shape difference is not counted as a violation",
     "cut-off <= 0.7 x anti-aliasing angle of the grid; detector angles inside the retained angular range",
+    "a single position given as a tuple: singleton scan axes are squeezed on both sides before comparing (the eager "
+    "SMatrix.reduce keeps a length-1 axis that the lazy path and SMatrixArray.reduce drop; not counted)",
+    "detector/scan combinations on which the Probe reference itself raises are reported as C06/no-exception",
 ]
 CONTRACTS = [
     "abtem/prism/s_matrix.py:SMatrix.reduce",
